@@ -414,7 +414,7 @@ main_c10(void)
     if (ret == 0) {
         int eq = tsk_table_collection_equals(&t, &t2, opt ? TSK_CMP_IGNORE_TABLES | TSK_CMP_IGNORE_REFERENCE_SEQUENCE : 0);
         sym_reach("accepted");
-        if (cls == 2 || cls == 3) {
+        if (cls == 2 || cls == 3 || (cls == 4 && pos >= 64 + 64 * (sym_file_peek(f, 12) + 256 * sym_file_peek(f, 13)))) {
             /* key bytes: keys are looked up by binary search over names that are assumed sorted; a renamed key can hide
              * itself and other optional columns */
             if (!eq) {
